@@ -87,7 +87,7 @@ package otto
 //@   ensures jsValue(result) && result.kind != valueObject
 
 //@ func (Value).float64
-//@   props C05
+//@   props C05 C15
 //@   requires jsValue(v)
 //@   pure_if v.kind != valueObject
 //@   throws v.kind == valueObject
@@ -135,7 +135,7 @@ package otto
 //@   nosafety
 
 //@ func (Value).number
-//@   props C05 C08 C09
+//@   props C05 C08 C09 C15
 //@   unfold numOf
 //@   requires jsValue(v)
 //@   pure_if v.kind != valueObject
@@ -252,7 +252,7 @@ package otto
 //@   throws v.kind == valueObject
 
 //@ func (Value).bool
-//@   props C05
+//@   props C05 C15
 //@   nothrow
 //@   pure
 //@   requires jsValue(v)
@@ -1710,3 +1710,52 @@ package otto
 //@   props C12
 //@   calls time.(time.Time).UnixMilli(_) as ms
 //@   ensures result == float64(ms)
+
+// ---------------------------------------------------------------------------
+// value.go: Go value -> JavaScript value (C15)
+// ---------------------------------------------------------------------------
+
+// toValue carries every supported scalar over UNCHANGED (same dynamic type, same bits;
+// float32 widened exactly), so that export - which returns the payload of a primitive -
+// gives back exactly the Go value that was put in; nil is undefined; a Value is itself.
+// Whatever the argument (including values reached through reflection, e.g. named numeric
+// types), a number result always carries one of the payload types the number kernels
+// accept (C05: isGoNumber).
+//@ func toValue
+//@   props C15
+//@   nosafety
+//@   requires is(value, Value) ==> wfValue(value.(Value))
+//@   ensures is(value, Value) ==> result == value.(Value)
+//@   ensures isnil(value) ==> result == Value{}
+//@   ensures is(value, bool) ==> result.kind == valueBoolean && result.value == value
+//@   ensures is(value, string) ==> result.kind == valueString && result.value == value
+//@   ensures is(value, float32) ==> result.kind == valueNumber && is(result.value, float64) && sameFloat(result.value.(float64), float64(value.(float32)))
+//@   ensures is(value, *object) ==> result.kind == valueObject && result.value == value
+//@   ensures result.kind == valueNumber ==> isGoNumber(result)
+//@   ensures result.kind == valueBoolean ==> is(result.value, bool)
+//@   ensures is(value, int) ==> result.kind == valueNumber && result.value == value
+//@   ensures is(value, int8) ==> result.kind == valueNumber && result.value == value
+//@   ensures is(value, int16) ==> result.kind == valueNumber && result.value == value
+//@   ensures is(value, int32) ==> result.kind == valueNumber && result.value == value
+//@   ensures is(value, int64) ==> result.kind == valueNumber && result.value == value
+//@   ensures is(value, uint) ==> result.kind == valueNumber && result.value == value
+//@   ensures is(value, uint8) ==> result.kind == valueNumber && result.value == value
+//@   ensures is(value, uint16) ==> result.kind == valueNumber && result.value == value
+//@   ensures is(value, uint32) ==> result.kind == valueNumber && result.value == value
+//@   ensures is(value, uint64) ==> result.kind == valueNumber && result.value == value
+//@   ensures is(value, float64) ==> result.kind == valueNumber && result.value == value
+
+// The predicates of the public API read the kind tag (IsNaN: the payload).
+//@ func (Value).IsNaN
+//@   props C15
+//@   nosafety
+//@   requires jsValue(v)
+//@   ensures isGoNumber(v) ==> (result <==> isNaN(numOf(v)))
+
+// Growing a bridged Go slice through its length keeps the existing elements: they are
+// copied FROM the old slice into the new one.
+//@ func (*goSliceObject).setLength
+//@   props C15 C16
+//@   nosafety
+//@   requires o != nil && jsValue(value)
+//@   at_call reflect.Copy : arg1 == o.value
